@@ -20,6 +20,22 @@ add('C05', 'E1', 'exploration',
     'Real-valued x only on the 4-point pool x dimension 1..5; floating additions x+-h are given 4 ulp when matching mirror images; the largest step is read from the object\'s own public generator.',
     'DESIGN.md section 5/C05')
 
+add('C06', 'E1', 'exploration',
+    'bounded-exhaustive enumeration of (method, n, order, step_ratio) x monomial degrees; the real difference functions executed in exact Q(sqrt2,i) arithmetic, float weights converted exactly',
+    'Every configuration of the stated grid is executed: the real LogRule.diff runs on t^k in exact arithmetic, the real float weights are converted exactly, the moment identities are evaluated exactly and compared with n! delta_kn within a conditioning-scaled allowance; the support of the surviving error powers is checked against method_order/richardson_step; the float rule.apply is checked for orientation. Complete enumeration of the finite configuration grid is the natural level: the statement is a per-configuration algebraic identity.',
+    'n, order <= 10 and 10 step ratios (6 and <= 8 in quick); numerically singular moment systems (100 eps kappa >= 0.5) are checked structurally only; _SQRT_J enters at its binary64 value.',
+    'DESIGN.md section 5/C06')
+add('C07', 'E1', 'exploration',
+    'bounded-exhaustive enumeration of (ratio, spacing, order, num_terms, length, columns) on the real Richardson class; exact Gaussian-rational identities + exact model sequences',
+    'Every cell of the stated grid (8 real and 12 complex ratios) is executed on the real Richardson class: weights converted exactly and the annihilation identities evaluated in exact Gaussian-rational arithmetic; model sequences formed exactly, rounded once and pushed through __call__; shapes, estimates, column independence checked on every case.',
+    'ratios from a fixed grid (not all reals); allowance 100 eps kappa |w|_1 (weights) / 1e3 eps kappa |w|_1 scale (behaviour); singular systems skipped for the numeric part.',
+    'DESIGN.md section 5/C07')
+add('C10', 'E1+E2', 'exploration',
+    'deviation-bounded exhaustive enumeration of step-generator option vectors x class x method x n x order x x against an independent closed-form model; exhaustive call sequences (depth <= 3) on a reused generator',
+    'All option vectors within 2 (quick) / 3 (thorough) deviations from the documented defaults are crossed with all generator classes, methods, (n, order) pairs and the x pool and compared to 4 ulp with a closed-form model typed in from the docstrings; every (method, n <= 10, order <= 10) coupling cell (default count >= rule length, Derivative does not raise) and every sequence of <= 3 calls on one reused generator instance is executed.',
+    'option values come from fixed menus; default_scale is restated independently in the model; complex spiral steps get an extra |e| eps phase allowance for the float complex power.',
+    'DESIGN.md section 5/C10')
+
 NOT_YET = {}
 
 ENGINES = [
